@@ -5,7 +5,7 @@ cd "$(dirname "$0")"
 [ -n "$(git -C /repo status --porcelain)" ] && { echo "/repo not clean"; exit 2; }
 OUT=${1:-seed_regression.txt}; : > $OUT
 for d in seeded/*/; do
-  n=$(basename $d); id=${n%[bcdefg]}
+  n=$(basename $d); id=${n%[bcdefgh]}
   git -C /repo apply /verif/$d/patch.diff || { echo "$n PATCH-FAILS" >> $OUT; continue; }
   s=$(date +%s); VERIF_NO_SAMPLES=1 ./check $id > /tmp/seedreg_$n.log 2>&1; rc=$?; e=$(date +%s)
   git -C /repo checkout -- .
